@@ -173,7 +173,7 @@ def region(d):
 
 
 CODES = {1: "the printer model (Sys/Printer.v print) and fu.Repr write different bytes",
-         2: "the round trip read (print w) = norm w fails inside the model on a printable value (theorem C12_print_read_round_trip)",
+         2: "the round trip read (print w) = norm w fails inside the model on a printable value (theorem C12_print_read_round_trip_partial)",
          3: "the reader model (Sys/Reader.v) and syntax.EvaluateExpr read different values from the printed text"}
 
 
@@ -223,7 +223,7 @@ def model_correspondence(run, cases, o1, o2, hist):
                 ty = a.get("type", "?")
                 hist["model_by_go_type"][ty] = hist["model_by_go_type"].get(ty, 0) + 1
                 if code:
-                    run.corr_breaks.append({"what": CODES.get(code, str(code)), "theorem": "C12_print_read_round_trip",
+                    run.corr_breaks.append({"what": CODES.get(code, str(code)), "theorem": "C12_print_read_round_trip_partial",
                                             "case": {"label": c["label"], "src": c["src"], "printed": a.get("repr"), "enumerated": a.get("ord")},
                                             "read_back": b.get("val")})
 
